@@ -4,6 +4,8 @@
 replaced by a proxy that records (initial value, folded sequence, result) of every `reduce` call — the types by value.
 The harness compares each recorded fold with the Lean model `condType` (refinement check of DESIGN C01 K(1))."""
 import functools as _functools
+import resource
+import signal
 
 import export
 
@@ -23,20 +25,39 @@ class _Proxy:
         return out
 
 
+def _cpu():
+    r = resource.getrusage(resource.RUSAGE_SELF)
+    return r.ru_utime + r.ru_stime
+
+
 def install(state, spec):
     import src.generators.generator as G
+    import pipeline
     state["raw"] = []
+    state["cpu0"] = _cpu()
+    cc = spec.get("cpu_cap")
+    if cc:
+        # the machine is shared: a wall-clock cap cuts off different programs on every run.  Cap the CPU time of the
+        # program instead (same Cutoff exception as pipeline's alarm); the wall-clock alarm of pipeline.run_one stays
+        # armed as a safety net (spec["cap"] is chosen generously).
+        state["old_vt"] = signal.signal(signal.SIGPROF, pipeline._alarm)
+        signal.setitimer(signal.ITIMER_PROF, cc)
     state["orig"] = G.functools
     G.functools = _Proxy(state)
 
 
 def collect(state):
+    if "old_vt" in state:
+        signal.setitimer(signal.ITIMER_PROF, 0)
     tt = export.TypeTable()
     folds = [{"tmp": tt.add(a), "t": tt.add(b), "f": tt.add(c), "out": tt.add(o)} for a, b, c, o in state.get("raw", [])[:2000]]
-    return {"tt": tt.entries, "folds": folds, "n": len(state.get("raw", []))}
+    return {"tt": tt.entries, "folds": folds, "n": len(state.get("raw", [])), "cpu_s": round(_cpu() - state.get("cpu0", 0), 2)}
 
 
 def uninstall(state):
     import src.generators.generator as G
+    if "old_vt" in state:
+        signal.setitimer(signal.ITIMER_PROF, 0)
+        signal.signal(signal.SIGPROF, state.pop("old_vt"))
     if "orig" in state:
         G.functools = state["orig"]
